@@ -17,6 +17,10 @@ CLAIMS = {
     text="Symbolic execution of the real blanket Predict impls, composing wrappers and eight fitted predictor families on symbolic query rows: outputs are terms over the inputs, so 'the same value for the same row in any batch, order, duplication, layout (row/column-major, strided view) and calling form' is decided structurally (identical hash-consed term = bit-identical IEEE value) or, where ndarray re-associates a sum, by z3 up to a relative 1e-9; all control-flow paths of predict over the bounded query grid are enumerated (exhaustive at the listed shapes unless evidence says otherwise). MultiClassModel arg-max is enumerated over solver-chosen probability grids.",
     technique="symbolic-scalar concolic execution + term identity / SMT (z3) per path; native f64 replay",
     design_ref="DESIGN.md §4 C03"),
+ "C12": dict(
+    text="Partial. The real logistic fits (binary and multinomial, argmin L-BFGS on f64) are executed for every label vector over a 3-4 letter alphabet (labels are symbolic class labels; the solver enumerates all feasible paths of label coding, error handling and decisions), on four concrete feature families (1-2 columns, centred / offset / badly scaled), alpha in {0, 1/8, 1, 8}, with and without intercept. On every path: error iff the class count is wrong, reported class set == training labels, probabilities in [0,1] (rows summing to one), predicted class == what probability and threshold / arg-max imply, and the gradient of the documented penalised negative log-likelihood recomputed from first principles vanishes (<= 1e-3). Features are not symbolic (linfa-logistic is tied to primitive floats), Tweedie GLM and probabilities at extreme inputs are outside the claim.",
+    technique="concolic enumeration of label vectors (symbolic labels, z3) over the real fit; per-path numeric stationarity oracle; native replay",
+    design_ref="DESIGN.md §4 C12"),
 }
 NA = {}
 
